@@ -14,12 +14,13 @@
 //!   FN = {"name": fname, "params": [x..] (the HIR parameters, `_this` first), "src": X, "stmts": [S..], "ret": E}
 //!        + "method": bool, "class": text, "pk": [K..] kinds of the source parameters, "rk": K kind of the result
 //!   K = "int"|"bool"|"unit"|"str"|"fn"|"other"|["class", text];  "structs": {class text: [K..] fields | null (generic)}
+//!   "synthetic_functions": {fname: {"params", "stmts", "ret"}} the functions made for lambdas (`_GenFn.<k>`)
 //!   "constructors": the HIR functions whose body is the one StructInit of their own parameters (lower_constructors)
 //!   fname = "M:<module>.<class>.<fn>" | "G:<type parameter>.<fn>"
 //! Source expressions:
 //!   X = ["int", i] | ["bool", b] | ["str", text] | ["var", x] | ["class", text]
 //!     | ["tuple", fname of init, [X..]] | ["field", X, field_order] | ["method", X, fname]
-//!     | ["un", "!"|"-", X] | ["call", X, [X..], void] | ["bin", op, X, X, kind of e1: "int"|"bool"|"unit"|"other"]
+//!     | ["un", "!"|"-", X] | ["call", X, [X..], void] | ["bin", op, X, X, kind of e1: "int"|"bool"|"unit"|"str"|"other"]
 //!     | ["if", ["cond", X] | ["guard", P, [key..], X], BLOCK, BLOCK | IF] | ["match", X, [[P, [key..], X]..]]
 //!     | ["lambda", [param..], [captured key.. in the iteration order of the map], X]
 //!     | ["block", [["let", P, [key..], X] | ["exp", X] ..], X|null]
@@ -77,7 +78,10 @@ fn kind(t: &Type) -> &'static str {
     Some((_, PrimitiveTypeKind::Int)) => "int",
     Some((_, PrimitiveTypeKind::Bool)) => "bool",
     Some((_, PrimitiveTypeKind::Unit)) => "unit",
-    None => "other",
+    None => match t.as_nominal() {
+      Some(nt) if nt.module_reference == ModuleReference::ROOT && nt.id == PStr::STR_TYPE => "str",
+      _ => "other",
+    },
   }
 }
 
@@ -358,7 +362,18 @@ fn dump(job: &Value) -> Value {
       }
     }
   }
+  let mut synthetic_functions = serde_json::Map::new();
+  for f in &hir_sources.functions {
+    if f.name.type_name.type_name == PStr::UNDERSCORE_GENERATED_FN {
+      synthetic_functions.insert(
+        hir_fname(&heap, &f.name),
+        json!({"params": f.parameters.iter().map(|p| n(&heap, *p)).collect::<Vec<_>>(),
+               "stmts": jstmts(&heap, &f.body), "ret": jexpr(&heap, &f.return_value)}),
+      );
+    }
+  }
   json!({"id": id, "functions": functions, "constructors": constructors, "concat": concat, "synthetic": synthetic,
+         "synthetic_functions": synthetic_functions,
          "structs": structs})
 }
 
